@@ -308,6 +308,10 @@ def run(ctx):
                             "recorder; validator: all strings stem+window over {0,a,F,g,_,+,-,space,x} (window 3..4 at start/middle/end) "
                             "and random 30-34 char strings, accepted ones stored through the real command function. "
                             "distinct = parameter tuple / string; non-trivial = 32-char strings and all verdict cases")
+    # the same verdict rule behind the Lustre-HSM check task (restore, wait, then the check; lfs answers scripted)
+    from props import c20
+    with envmod.Env() as e_hsm:
+        c20.stage_node(ctx, e_hsm, only=("checktask",), n=120 if ctx.quick() else 2500)
     from props.c06 import finish_search
     finish_search(ctx, ok)
 
